@@ -44,3 +44,62 @@ Proof.
     + exact C2.
     + exact L2.
 Qed.
+
+(* ---- what the next program sees ------------------------------------------------------------
+   The next program starts in a fresh, empty scope enclosed in the global one. Every name it looks
+   up there resolves, at that moment, exactly as in the global scope of the interpreter before the
+   history ran: earlier programs' variables are not on its lookup chain, and the global scope has
+   not changed. *)
+Lemma env_get_fuel_global st x fr f :
+  nth_error (frames st) 0 = Some fr -> fouter fr = None ->
+  env_get_fuel (S f) st 0 x = assoc x (fstore fr).
+Proof.
+  intros H0 Ho. cbn [env_get_fuel]. rewrite H0. destruct (assoc x (fstore fr)); [reflexivity|]. now rewrite Ho.
+Qed.
+
+Lemma fresh_scope_resolves_in_global st x fr :
+  nth_error (frames st) 0 = Some fr -> fouter fr = None ->
+  let '(r, st1) := alloc_frame [] (Some 0) st in
+  match r with Ok e => env_get st1 e x = assoc x (fstore fr) | _ => False end.
+Proof.
+  intros H0 Ho. unfold alloc_frame.
+  assert (1 <= length (frames st)) as L.
+  { destruct (frames st); [discriminate|cbn; lia]. }
+  set (nf := {| fstore := []; fouter := Some 0 |}).
+  set (st1 := {| heap := heap st; frames := (frames st ++ [nf])%list; funcs := funcs st;
+                 biters := biters st; out := out st; inp := inp st |}).
+  unfold env_get.
+  assert (length (frames st1) = S (length (frames st))) as E1.
+  { unfold st1. cbn [frames]. rewrite app_length. cbn [length]. lia. }
+  rewrite E1.
+  assert (nth_error (frames st1) (length (frames st)) = Some nf) as En.
+  { unfold st1. cbn [frames]. rewrite nth_error_app2 by lia. now rewrite Nat.sub_diag. }
+  assert (nth_error (frames st1) 0 = Some fr) as E0.
+  { unfold st1. cbn [frames]. rewrite nth_error_app1 by lia. exact H0. }
+  change (env_get_fuel (S (S (length (frames st)))) st1 (length (frames st)) x) with
+    (match nth_error (frames st1) (length (frames st)) with
+     | None => None
+     | Some fr0 => match assoc x (fstore fr0) with
+                   | Some v => Some v
+                   | None => match fouter fr0 with
+                             | Some o => env_get_fuel (S (length (frames st))) st1 o x
+                             | None => None
+                             end
+                   end
+     end).
+  rewrite En. unfold nf. cbn [fstore assoc fouter].
+  apply env_get_fuel_global; assumption.
+Qed.
+
+Theorem next_program_sees_the_original_globals W fuel hs st x fr :
+  nth_error (frames st) 0 = Some fr -> fouter fr = None -> ~ clof st 0 ->
+  let st' := run_history W fuel hs st in
+  let '(r, st1) := alloc_frame [] (Some 0) st' in
+  match r with Ok e => env_get st1 e x = assoc x (fstore fr) | _ => False end.
+Proof.
+  intros H0 Ho C st'.
+  assert (1 <= length (frames st)) as L.
+  { destruct (frames st); [discriminate|cbn; lia]. }
+  destruct (history_preserves_world W fuel hs st L C) as (F & _ & _ & _).
+  apply fresh_scope_resolves_in_global; [|exact Ho]. fold st' in F. rewrite F. exact H0.
+Qed.
